@@ -105,9 +105,61 @@ K_UDP_SWARM = dict(
         dict(name='swarm::verif_kani::large_clean_v4_5', complete=False, bound='heap map <= 5 entries', timeout=2400, tier='thorough',
              tags=['C10.udp.large.clean.keeps_unexpired', 'C10.udp.large.clean.removes_expired', 'C01.udp.large.clean.wf', 'C01.udp.large.clean.counts', 'C20.udp.large.clean.counts'],
              functions=['LargePeerMap::clean_and_get_num_peers']),
+        dict(name='swarm::verif_kani::tally_announce_small_v4', complete=True, timeout=2400,
+             tags=['C20.tally.announce.new_key', 'C20.tally.announce.same_id', 'C20.tally.announce.stop_other_id', 'C20.tally.announce.id_change'],
+             functions=['PeerMap::announce (statistics messages, inline map)'], playback_optional=True,
+             no_playback='Sender::try_send is replaced by a recorder (no native counterpart); the finding is demonstrated by findings/D4/demo.diff'),
         dict(name='swarm::verif_kani::large_try_shrink_v4_4', complete=False, bound='heap map <= 4 entries', timeout=900,
              tags=['C01.udp.large.try_shrink.iff_fits', 'C01.udp.large.try_shrink.self_unchanged', 'C01.udp.large.try_shrink.same_entries'],
              functions=['LargePeerMap::try_shrink']),
+    ],
+)
+
+K_WS_PROTO = dict(
+    unit='ws_proto', package='aquatic_ws_protocol',
+    inject=[('crates/ws_protocol/src/common.rs', 'common_harness.rs')],
+    harnesses=[
+        dict(name='common::verif_kani::visit_str_exact', complete=False, bound='strings of <= 22 arbitrary chars', timeout=1200,
+             tags=['C15.ident.too_short', 'C15.ident.too_long', 'C15.ident.out_of_range', 'C15.ident.value', 'C15.ident.accept', 'C12.ws_proto.visit_str'],
+             functions=['TwentyByteVisitor::visit_str']),
+        dict(name='common::verif_kani::serialize_exact_and_roundtrip', complete=True, timeout=1200,
+             tags=['C15.ident.encode.ok', 'C15.ident.encode.utf8', 'C15.ident.encode.chars', 'C15.ident.encode.len', 'C15.ident.roundtrip'],
+             functions=['serialize_20_bytes', 'TwentyByteVisitor::visit_str']),
+    ],
+)
+K_HTTP_PROTO = dict(
+    unit='http_proto', package='aquatic_http_protocol',
+    inject=[('crates/http_protocol/src/utils.rs', 'utils_harness.rs')],
+    harnesses=[
+        dict(name='utils::verif_kani::urlencode_exact_and_roundtrip', complete=True, timeout=1200,
+             tags=['C14.ident.encode.len', 'C14.ident.encode.layout', 'C14.ident.roundtrip'], functions=['urlencode_20_bytes', 'urldecode_20_bytes']),
+        dict(name='utils::verif_kani::urldecode_exact', complete=False, bound='<= 21 units of ASCII (plain or %xx)', timeout=1800,
+             tags=['C14.ident.decode.exactly_20', 'C14.ident.decode.bad_hex', 'C14.ident.decode.value', 'C14.ident.decode.accept', 'C12.http_proto.urldecode'],
+             functions=['urldecode_20_bytes']),
+    ],
+)
+
+_IDXMODEL = ('crates/common/Cargo.toml', 'indexmap = "2"', 'indexmap = { package = "indexmap_model", path = "/verif/models/indexmap_model" }')
+K_HTTP_SWARM = dict(
+    unit='http_swarm', package='verif_http_harness',
+    inject=[('crates/http/src/workers/swarm/storage.rs', 'storage_harness.rs')],
+    copy=[('crate', 'crates/verif_http_harness')], workspace_members=['crates/verif_http_harness'],
+    replace=[_IDXMODEL],
+    harnesses=[
+        dict(name='storage::verif_kani::small_queries_v4', complete=True, timeout=1500, tier='thorough',
+             tags=['C07.http.small.is_full', 'C07.http.small.nsl', 'C02.http.small.extract.len', 'C02.http.small.extract.keys', 'C07.http.small.to_large'],
+             functions=['http SmallPeerMap::{is_full,num_seeders_leechers,extract_response_peers,to_large}']),
+        dict(name='storage::verif_kani::small_insert_remove_v4', complete=True, timeout=2400, tier='thorough',
+             tags=['C07.http.small.remove.absent', 'C07.http.small.remove.present', 'C07.http.small.insert'], functions=['http SmallPeerMap::{remove,insert}']),
+        dict(name='storage::verif_kani::small_clean_v4', complete=True, timeout=1500, tier='thorough',
+             tags=['C10.http.small.clean.keeps_unexpired', 'C10.http.small.clean.removes_expired'], functions=['http SmallPeerMap::clean_and_get_num_peers']),
+        dict(name='storage::verif_kani::large_clean_shrink_v4_5', complete=False, bound='heap map <= 5 entries', timeout=2400, tier='thorough',
+             tags=['C10.http.large.clean.keeps_unexpired', 'C10.http.large.clean.removes_expired', 'C07.http.large.clean.wf',
+                   'C07.http.large.try_shrink.iff_fits', 'C07.http.large.try_shrink.same_entries'],
+             functions=['http LargePeerMap::{clean_and_get_num_peers,try_shrink}']),
+        dict(name='storage::verif_kani::scrape_first_max_each_once', complete=False, bound='2 stored torrents x <= 2 peers, <= 4 requested hashes out of 4', timeout=2400,
+             tags=['C07.http.scrape.only_first_max', 'C07.http.scrape.counts', 'C07.http.scrape.each_requested_once'],
+             functions=['http TorrentMap::handle_scrape_request']),
     ],
 )
 
@@ -140,7 +192,7 @@ PROPS = {
         note='validator and shard maps are contract stubs (C05 / C01 decide them); datagram I/O loops, source-port-0 filtering and one-datagram-per-datagram are not reached.',
     ),
     'C07': dict(
-        verus=['http_swarm'], kani=[], level='proof',
+        verus=['http_swarm'], kani=[K_HTTP_SWARM], level='proof',
         technique='Verus contracts (one-step refinement of a reference tracker) on the real http TorrentData / LargePeerMap / TorrentMap functions, incl. a prophecy-style contract for indexmap entry()',
         claim='Every announce handled by an HTTP swarm worker refines the reference tracker for all states and inputs: counts exclude the announcer, stopped removes, latest wins, left = 0 means seeder, a never-seen torrent behaves like an empty one, and every other torrent is untouched (frame).',
         note='Assumes the dependency contract for indexmap (incl. entry/or_default) and the hand-off contracts of the inline map; scrape (iterator loop) and clean (retain closure) are not in the Verus unit.',
@@ -161,6 +213,14 @@ PROPS = {
         note='handle_offers (offer fan-out, recording of expectations) is outside Verus\' subset: assumed hand-off contract, not proved here; expiry of expectations is C10.',
         not_reached=['TorrentData::handle_offers (closure + zip loop): recipients, count min(offers, max_offers, others)', 'extract_response_peers (ws)'],
     ),
+    'C10': dict(
+        verus=['udp_swarm', 'http_swarm', 'ws_swarm'], kani=[K_COMMON_ADDR, K_UDP_SWARM, K_HTTP_SWARM], level='proof',
+        technique='Kani function contracts / full-domain harnesses on ValidUntil::{new_with_now,valid}; Verus contracts for the deadline refresh in the three announce paths; Kani harnesses on the real retain-based cleaning functions',
+        claim='valid(now) holds exactly while now < deadline and new_with_now(now, age) sets deadline = now + age (all u32 values, no-overflow precondition stated); every (re-)announce stores the deadline it is handed (udp, http) or clock sample + max_peer_age (ws); inline-map cleaning keeps exactly the entries with deadline > now (complete), heap-map cleaning the same within a stated bound.',
+        note='u32 wrap of now + age is a stated precondition (uptime + configured age < 2^32 s); that workers refresh their clock sample is event-loop code (not reached); ws offer expiry is covered only by the hand-off note of C09.',
+        assumptions=['machine arithmetic: now + max age <= u32::MAX (the clock itself panics at the same horizon)'],
+        not_reached=['socket/swarm worker loops refreshing peer_valid_until', 'ws TorrentData::clean_and_get_num_peers (nested retain)'],
+    ),
     'C11': dict(
         verus=['udp_handler'], kani=[], level='proof',
         technique='Verus contracts: AccessList::allows against its specification; permission precondition list_allows on the swarm entry points of both UDP back ends',
@@ -172,6 +232,30 @@ PROPS = {
         technique='Kani/CBMC harnesses on the real udp_protocol parser/writers against an independent BEP 15 byte-layout oracle (symbolic datagrams)',
         claim='Every datagram of up to 128 bytes is classified and decoded exactly as BEP 15 prescribes (connect, announce with extension bytes, all four events, rejects); writers emit exactly the BEP 15 layout and round-trip.',
         note='list-carrying messages (scrape, replies with peers) are bounded by list length and labelled so; zerocopy/byteorder internals are executed symbolically, not trusted.',
+    ),
+    'C15': dict(
+        verus=[], kani=[K_WS_PROTO], level='other',
+        technique='Kani/CBMC harnesses on the real TwentyByteVisitor::visit_str and serialize_20_bytes (symbolic strings / identifiers)',
+        claim='20-byte identifiers encode to exactly 20 characters U+00<byte> (complete, all 2^160 identifiers) and decode back; the decoder accepts exactly the 20-character strings in U+0000..U+00FF among all strings of up to 22 characters (bounded).',
+        explanation='partial: only the identifier codec is under contract; whole-message JSON round trips go through serde_json / simd-json, which neither back end reaches. The decoder harness is bounded by string length (22 chars), the encoder harness is complete.',
+        note='serde error construction is replaced by a message-ignoring error type; format! is stubbed (message text is not part of the property).',
+        not_reached=['InMessage / OutMessage JSON round trip (serde_json, simd-json)', 'text vs binary WebSocket frames'],
+    ),
+    'C14': dict(
+        verus=[], kani=[K_HTTP_PROTO], level='other',
+        technique='Kani/CBMC harnesses on the real urlencode_20_bytes / urldecode_20_bytes',
+        claim='Percent-encoding of 20-byte identifiers is exactly %hh x 20 and round-trips for all identifiers (complete); the decoder accepts exactly 20 well-formed units among all ASCII unit strings of up to 21 units (bounded).',
+        explanation='partial: only the identifier codec is under contract; the memchr-driven query splitter, the bencode reply writers and the serde_bencode reader are not reached by this check.',
+        note='anyhow error construction runs for real except format!, which is stubbed.',
+        not_reached=['AnnounceRequest/ScrapeRequest::parse_query_string (memchr runtime CPU detection)', 'Response::parse_bytes (serde_bencode)', 'reply writers vs independent bencode encoder'],
+    ),
+    'C20': dict(
+        verus=[], kani=[K_UDP_SWARM], level='other',
+        technique='Kani/CBMC harnesses on the real PeerMap::announce (statistics messages recorded through a stubbed Sender::try_send) and the real cleaning functions',
+        claim='For every inline-map state and announce with per-client statistics on, the change in the number of stored peers carrying each peer id equals PeerAdded minus PeerRemoved messages for that id; cleaning functions return the counts of the peers that remain.',
+        explanation='partial: the tally contract is decided for the per-torrent map (inline representation complete, heap representation bounded); the statistics worker, the export file contents and its atomic replacement (crash points, concurrent readers) are outside what a function contract can express.',
+        note='Sender::try_send is replaced by a recorder; export/rename and the statistics worker are not reached.',
+        not_reached=['clean_and_update_statistics: export file contents, tmp + rename atomicity, crash points', 'statistics worker tally map', 'shard-level totals (locks)'],
     ),
     'C05': dict(
         verus=[], kani=[K_UDP_VALIDATOR], level='proof',
